@@ -3,11 +3,14 @@ package scen
 // Scenarios for the cache-related properties:
 //
 //	C19  caches never serve bytes that were not stored
-//	       generic-cache     internal/cache.GenericCache, both persistors, LFU / evict-nothing
-//	       cache-partstore   partstore/cache over a real fs / sql bottom
+//	       generic-cache     internal/cache.GenericCache, both persistors, LFU / evict-nothing;
+//	                         + readers held open across later Set/Remove of their key
+//	       cache-partstore   partstore/cache over a real fs / sql bottom;
+//	                         + GetPart readers held open across PutPart/DeletePart of their id
 //	C20  the object-cache middleware is transparent
-//	       objcache-seq      same history through the cache, cached vs inner after every op
-//	       objcache-conc     concurrent put/get/head on one key
+//	       objcache-seq      same history through the cache, cached vs inner after every op;
+//	                         + reads given up midway (closed early / twice / inner read error) before fresh reads
+//	       objcache-conc     concurrent put/get/head on one key; + given-up reads
 //	C36  streaming reads hold their transaction exactly as long as needed
 //	       txreaders-order   orders of Read/Close/double-Close over 1-4 range readers (SQL part store)
 
@@ -38,6 +41,7 @@ import (
 	"github.com/jdillenkofer/pithos/internal/storage"
 	"github.com/jdillenkofer/pithos/internal/storage/database"
 	"github.com/jdillenkofer/pithos/internal/storage/metadatapart/partstore"
+	"github.com/jdillenkofer/pithos/internal/storage/middlewares/delegator"
 	"github.com/jdillenkofer/pithos/internal/storage/middlewares/objectcache"
 	"github.com/jdillenkofer/pithos/verifharness/model"
 	"github.com/jdillenkofer/pithos/verifharness/seams"
@@ -236,6 +240,30 @@ type c19Set struct {
 	delivered bool // every byte was handed to the cache
 	done      bool
 	err       error
+	call, ret int64 // event numbers of the call and the return of Set
+}
+
+// c19Match finds the Set whose complete value a Get on key returned. A Set
+// that began only after that Get had returned (event getRet) cannot be the
+// source: the reader a Get hands out is the value at that moment, whatever
+// happens to the key while the reader is open. kind is "" for a legitimate
+// value, else the class of the violation.
+func c19Match(sets []*c19Set, key string, got []byte, getRet int64) (src *c19Set, kind, why string) {
+	var later *c19Set
+	for _, s := range sets {
+		if s.key == key && s.delivered && bytes.Equal(s.val, got) {
+			if s.call > getRet {
+				later = s
+				continue
+			}
+			return s, "", ""
+		}
+	}
+	if later != nil {
+		return later, "later-set", fmt.Sprintf("the value of %s, a Set that began (event %d) only after this Get had returned its reader (event %d)", later.tag, later.call, getRet)
+	}
+	kind, why = c19Classify(sets, key, got)
+	return nil, kind, why
 }
 
 // c19Classify explains a value that is not the complete value of any Set on key.
@@ -292,6 +320,7 @@ func runC19Generic(rc *RunCtx) (*Violation, error) {
 	}
 	var sets []*c19Set
 	var tasks []*sim.Task
+	var ev int64 // call / return events of Set and Get, in execution order
 	counts := map[string]int{}
 	for c0 := 0; c0 < nTasks; c0++ {
 		ti := c0
@@ -325,7 +354,11 @@ func runC19Generic(rc *RunCtx) (*Violation, error) {
 						size = int64(len(rec.val))
 					}
 					rc.Logf("t%d Set(%s, %s, %d B, size=%d, failAt=%d) ...", ti, p.key, tag, len(rec.val), size, p.failAt)
+					ev++
+					rec.call = ev
 					err := c.Set(p.key, &c19Source{data: rec.val, chunk: p.chunk, failAt: p.failAt, delivered: &rec.delivered}, size)
+					ev++
+					rec.ret = ev
 					rec.done, rec.err = true, err
 					rc.Logf("t%d Set(%s, %s) -> %v", ti, p.key, tag, err)
 					counts["set"]++
@@ -338,6 +371,8 @@ func runC19Generic(rc *RunCtx) (*Violation, error) {
 					counts["remove"]++
 				default:
 					rd, err := c.Get(p.key)
+					ev++
+					getRet := ev
 					counts["get"]++
 					if err != nil {
 						if err == cachepkg.ErrCacheMiss {
@@ -357,19 +392,12 @@ func runC19Generic(rc *RunCtx) (*Violation, error) {
 						continue
 					}
 					counts["hit"]++
-					okv := false
-					for _, s := range sets {
-						if s.key == p.key && s.delivered && bytes.Equal(s.val, got) {
-							okv = true
-							rc.Logf("t%d Get(%s) -> value of %s", ti, p.key, s.tag)
-							if !s.done {
-								rc.Stats.Inc("probe.c19.get_saw_set_in_progress")
-							}
-							break
+					if src, kind, why := c19Match(sets, p.key, got, getRet); kind == "" {
+						rc.Logf("t%d Get(%s) -> value of %s", ti, p.key, src.tag)
+						if !src.done {
+							rc.Stats.Inc("probe.c19.get_saw_set_in_progress")
 						}
-					}
-					if !okv {
-						kind, why := c19Classify(sets, p.key, got)
+					} else {
 						rc.Logf("t%d Get(%s) -> %s: %s", ti, p.key, kind, cachesClip(got))
 						rc.Stats.Inc("c19.generic." + kind)
 						rc.SoftFail(rc.Fail("generic-cache-value", kind+":"+pers, "GenericCache(%s persistor, policy %s) Get(%s) returned %d bytes %s with a clean EOF: %s; a Get must return a miss or the complete bytes of a Set of that key", pers, policy, p.key, len(got), cachesClip(got), why))
@@ -400,6 +428,222 @@ func runC19Generic(rc *RunCtx) (*Violation, error) {
 			return rc.Fail("panic", "panic:"+policy, "GenericCache(%s, %s): %s", pers, policy, p), nil
 		}
 	}
+	// ---- held-reader rounds (drawn after everything above) ----
+	// At quiescence a value A is Set and 1-2 readers are obtained with Get and
+	// read up to a drawn offset (0 .. len-1). Then, with the readers still
+	// open, 1-2 tasks run 1-3 Set (same size as A, smaller, one byte smaller,
+	// larger, failing midway) and Remove calls on the SAME key while the
+	// readers are drained in small chunks with a preemption point before
+	// every chunk and a drawn delay before the first one. A reader that ends
+	// with a clean EOF must have delivered exactly A - the value current when
+	// Get returned - whatever was stored or removed under the key meanwhile.
+	runGuarded := func(ts []*sim.Task) (*Violation, error) {
+		if err := rc.S.Run(func() bool {
+			all := true
+			for _, t := range ts {
+				if t.Panic != nil {
+					wp.dead = true
+					return true
+				}
+				if !t.Done() {
+					all = false
+				}
+			}
+			return all
+		}); err != nil {
+			return nil, err
+		}
+		for _, t := range ts {
+			if p := TaskPanic(t); p != "" {
+				return rc.Fail("panic", "panic:"+policy, "GenericCache(%s, %s): %s", pers, policy, p), nil
+			}
+		}
+		return nil, nil
+	}
+	type heldReader struct {
+		rd     io.ReadCloser
+		before int
+		sizes  []int
+		hold   time.Duration
+		getRet int64
+		got    []byte
+		rerr   error
+	}
+	type heldMut struct {
+		kind      int // 0 set of equal size, 1 smaller set, 2 remove, 3 set one byte smaller, 4 larger set, 5 failing set
+		task      int
+		chunk     int
+		sizeKnown bool
+		failFrac  int
+		think     time.Duration
+	}
+	heldChecked := 0
+	for round, nRounds := 0, g.Int(4); round < nRounds; round++ {
+		key := fmt.Sprintf("k%d", g.Int(nKeys))
+		fillA := []int{200, 20, 2000}[g.Int(3)]
+		recA := &c19Set{key: key, tag: fmt.Sprintf("%s.h%d.0", key, round)}
+		recA.val = cachesValue(recA.tag, fillA)
+		sizeKnownA := !g.Chance(1, 2)
+		var readers []*heldReader
+		for j, n := 0, 1+g.Int(2); j < n; j++ {
+			hr := &heldReader{}
+			hr.before = []int{0, 1, len(recA.val) / 2, len(recA.val) - 1}[g.Int(4)]
+			hr.sizes = [][]int{{64}, {5}, {1, 300}, {4096}}[g.Int(4)]
+			hr.hold = time.Duration(g.Int(150)) * time.Microsecond
+			readers = append(readers, hr)
+		}
+		nMutTasks := 1 + g.Int(2)
+		var muts []heldMut
+		for j, n := 0, 1+g.Int(3); j < n; j++ {
+			m := heldMut{kind: g.Int(6), task: g.Int(nMutTasks)}
+			m.chunk = []int{0, 7, 64, 1000}[g.Int(4)]
+			m.sizeKnown = !g.Chance(1, 2)
+			m.failFrac = g.Int(4)
+			m.think = time.Duration(g.Int(50)) * time.Microsecond
+			muts = append(muts, m)
+		}
+		// stage 1: Set A, open the readers, read the first bytes
+		var openErr error
+		open := rc.S.Go(fmt.Sprintf("h%d.open", round), func(t *sim.Task) {
+			sets = append(sets, recA)
+			size := int64(-1)
+			if sizeKnownA {
+				size = int64(len(recA.val))
+			}
+			ev++
+			recA.call = ev
+			err := c.Set(key, &c19Source{data: recA.val, failAt: -1, delivered: &recA.delivered}, size)
+			ev++
+			recA.ret = ev
+			recA.done, recA.err = true, err
+			rc.Logf("held round %d: Set(%s, %s, %d B, size=%d) -> %v", round, key, recA.tag, len(recA.val), size, err)
+			if err != nil {
+				openErr = err
+				return
+			}
+			for j, hr := range readers {
+				rd, err := c.Get(key)
+				ev++
+				hr.getRet = ev
+				if err != nil {
+					// evicted at once by a tiny limit (or a Get error): nothing to hold
+					rc.Logf("held round %d: r%d Get(%s) -> %v", round, j, key, err)
+					rc.Stats.Inc("c19.held.not_cached")
+					continue
+				}
+				hr.rd = rd
+				for len(hr.got) < hr.before && hr.rerr == nil {
+					buf := make([]byte, min(64, hr.before-len(hr.got)))
+					n, rerr := rd.Read(buf)
+					hr.got = append(hr.got, buf[:n]...)
+					if rerr != nil {
+						hr.rerr = rerr
+					}
+				}
+				rc.Logf("held round %d: r%d Get(%s) -> reader, %d of %d B read, stays open", round, j, key, len(hr.got), len(recA.val))
+			}
+		})
+		if v, err := runGuarded([]*sim.Task{open}); v != nil || err != nil {
+			return v, err
+		}
+		if openErr != nil {
+			continue
+		}
+		// stage 2: the mutators and the draining readers, interleaved by the scheduler
+		var stage []*sim.Task
+		for j, hr := range readers {
+			if hr.rd == nil {
+				continue
+			}
+			j, hr := j, hr
+			stage = append(stage, rc.S.Go(fmt.Sprintf("h%d.r%d", round, j), func(t *sim.Task) {
+				defer hr.rd.Close()
+				rc.S.Sleep(hr.hold)
+				if hr.rerr != nil {
+					return
+				}
+				rest, rerr := seams.ReadAllSized(hr.rd, hr.sizes, 1, "cache.held.read")
+				hr.got = append(hr.got, rest...)
+				hr.rerr = rerr
+				ev++
+				rc.Logf("held round %d: r%d drained (event %d): %d B %s err=%v", round, j, ev, len(hr.got), cachesClip(hr.got), rerr)
+			}))
+		}
+		for mt := 0; mt < nMutTasks; mt++ {
+			mt := mt
+			stage = append(stage, rc.S.Go(fmt.Sprintf("h%d.m%d", round, mt), func(t *sim.Task) {
+				for i, m := range muts {
+					if m.task != mt {
+						continue
+					}
+					rc.S.Sleep(m.think)
+					if wp.dead {
+						return
+					}
+					if m.kind == 2 {
+						err := c.Remove(key)
+						rc.Logf("held round %d: m%d Remove(%s) -> %v", round, mt, key, err)
+						counts["remove"]++
+						continue
+					}
+					filler := fillA
+					switch m.kind {
+					case 1:
+						filler = fillA / 2
+					case 3:
+						filler = fillA - 1
+					case 4:
+						filler = fillA*2 + 1
+					}
+					rec := &c19Set{key: key, tag: fmt.Sprintf("%s.h%d.%d", key, round, i+1)}
+					rec.val = cachesValue(rec.tag, filler)
+					failAt := -1
+					if m.kind == 5 {
+						failAt = len(rec.val) * m.failFrac / 4
+					}
+					size := int64(-1)
+					if m.sizeKnown {
+						size = int64(len(rec.val))
+					}
+					sets = append(sets, rec)
+					ev++
+					rec.call = ev
+					rc.Logf("held round %d: m%d Set(%s, %s, %d B, size=%d, failAt=%d) (event %d) ...", round, mt, key, rec.tag, len(rec.val), size, failAt, ev)
+					err := c.Set(key, &c19Source{data: rec.val, chunk: m.chunk, failAt: failAt, delivered: &rec.delivered}, size)
+					ev++
+					rec.ret = ev
+					rec.done, rec.err = true, err
+					rc.Logf("held round %d: m%d Set(%s, %s) -> %v (event %d)", round, mt, key, rec.tag, err, ev)
+					counts["set"]++
+				}
+			}))
+		}
+		if v, err := runGuarded(stage); v != nil || err != nil {
+			return v, err
+		}
+		for j, hr := range readers {
+			if hr.rd == nil {
+				continue
+			}
+			if hr.rerr != nil {
+				// an error is an acceptable end of a reader whose entry was replaced
+				rc.Stats.Inc("c19.held.read_error")
+				continue
+			}
+			heldChecked++
+			rc.Stats.Inc("probe.c19.held_reader_drained")
+			if bytes.Equal(hr.got, recA.val) {
+				continue
+			}
+			_, kind, why := c19Match(sets, key, hr.got, hr.getRet)
+			if kind == "" {
+				kind, why = "stale-set", "the complete value of an earlier Set, not of the Set that had just completed"
+			}
+			rc.Stats.Inc("c19.held." + kind)
+			rc.SoftFail(rc.Fail("generic-cache-value", "held-reader-"+kind+":"+pers, "GenericCache(%s persistor, policy %s): reader r%d was returned by Get(%s) (event %d) when the key held %s (%d B, Set completed at event %d, nothing else in flight), %d bytes were read, then the reader stayed open across later Set/Remove calls on %s; drained to a clean EOF it delivered %d bytes %s: %s; an open reader must deliver exactly the value its Get returned, or fail", pers, policy, j, key, hr.getRet, recA.tag, len(recA.val), recA.ret, hr.before, key, len(hr.got), cachesClip(hr.got), why))
+		}
+	}
+	rc.Stats.Add("c19.held.readers_checked", int64(heldChecked))
 	// final contents at quiescence
 	var sig []string
 	for i := 0; i < nKeys; i++ {
@@ -748,6 +992,169 @@ func runC19PartStore(rc *RunCtx) (*Violation, error) {
 			rc.Stats.Inc("c19.partstore.race_rounds")
 		}
 	}
+	// held-reader rounds (drawn after everything above): a put so that the
+	// part exists (and, if small enough, sits in the cache), then a reader is
+	// obtained with GetPart and read up to a drawn offset (0 .. len-1); only
+	// then 1-2 tasks start that run 1-3 PutPart (same size, half, one byte
+	// smaller, larger) and DeletePart calls on the SAME id while the reader is
+	// drained in small chunks with a preemption point before every chunk;
+	// a re-read follows when all have returned. The holder and the calls are
+	// part of the recorded history, so the oracle below applies to them: the
+	// reader delivers the complete bytes of ONE put of that id or fails,
+	// never a mixture of two puts.
+	for round, nRounds := 0, g.Int(3); round < nRounds; round++ {
+		free := func() bool { return txFreeOK && g.Chance(share, 3) }
+		hid := g.Int(nIDs)
+		fillA := []int{300, 30, 3000}[g.Int(3)]
+		putA := plan{kind: "put", id: hid, filler: fillA}
+		fPutA, fHold, fRe := free(), free(), free()
+		beforeSel := g.Int(4)
+		holdSizes := [][]int{{64}, {7}, {1, 500}, {4096}}[g.Int(4)]
+		hold := time.Duration(g.Int(150)) * time.Microsecond
+		nMutTasks := 1 + g.Int(2)
+		type hmut struct {
+			p    plan
+			free bool
+			task int
+		}
+		var muts []hmut
+		for j, n := 0, 1+g.Int(3); j < n; j++ {
+			m := hmut{p: plan{id: hid}, task: g.Int(nMutTasks)}
+			m.p.kind = "put"
+			switch g.Int(5) {
+			case 0:
+				m.p.filler = fillA
+			case 1:
+				m.p.filler = fillA / 2
+			case 2:
+				m.p.kind = "delete"
+			case 3:
+				m.p.filler = fillA - 1
+			case 4:
+				m.p.filler = fillA*2 + 1
+			}
+			m.p.bodySizes = [][]int{nil, {16}, {100}, {1, 1000}}[g.Int(4)]
+			m.p.think = time.Duration(g.Int(50)) * time.Microsecond
+			m.free = free()
+			muts = append(muts, m)
+		}
+		base := 100 + 10*round
+		stage1 := rc.S.Go(fmt.Sprintf("r%d.put", base), func(t *sim.Task) { runOp(base, 0, putA, fPutA) })
+		if err := rc.S.RunTasks(stage1); err != nil {
+			return nil, err
+		}
+		if p := TaskPanic(stage1); p != "" {
+			return rc.Fail("panic", "panic:"+l.CachePolicy, "cache part store (%s): %s", spec.Default, p), nil
+		}
+		opA := ops[len(ops)-1]
+		if opA.err != nil {
+			continue
+		}
+		before := []int{0, 1, len(opA.val) / 2, len(opA.val) - 1}[beforeSel]
+		var stage []*sim.Task
+		spawned := false
+		spawn := func() {
+			if spawned {
+				return
+			}
+			spawned = true
+			for mt := 0; mt < nMutTasks; mt++ {
+				mt := mt
+				stage = append(stage, rc.S.Go(fmt.Sprintf("r%d.m%d", base, mt), func(t *sim.Task) {
+					for i, m := range muts {
+						if m.task == mt {
+							runOp(base+1+mt, i, m.p, m.free)
+						}
+					}
+				}))
+			}
+		}
+		holder := rc.S.Go(fmt.Sprintf("r%d.hold", base), func(t *sim.Task) {
+			op := &c19PartOp{kind: "get", id: hid, client: base, txfree: fHold}
+			ops = append(ops, op)
+			ev++
+			op.call = ev
+			drain := func(rd io.ReadCloser) error {
+				var got []byte
+				var rerr error
+				for len(got) < before && rerr == nil {
+					buf := make([]byte, min(64, before-len(got)))
+					n, e := rd.Read(buf)
+					got = append(got, buf[:n]...)
+					rerr = e
+				}
+				rc.Logf("held round %d: c%d GetPart(id%d%s) [%d,..] -> reader, %d B read, stays open", round, base, hid, map[bool]string{true: " tx=nil"}[fHold], op.call, len(got))
+				spawn()
+				rc.S.Sleep(hold)
+				if rerr == nil {
+					var rest []byte
+					rest, rerr = seams.ReadAllSized(rd, holdSizes, 1, "part.held.read")
+					got = append(got, rest...)
+				} else if rerr == io.EOF {
+					rerr = nil
+				}
+				if cerr := rd.Close(); rerr == nil && cerr != nil {
+					rerr = cerr
+				}
+				op.val = got
+				return rerr
+			}
+			var err error
+			if fHold {
+				var rd io.ReadCloser
+				if rd, err = cacheStore.GetPart(ctx, nil, ids[hid]); err == nil {
+					err = drain(rd)
+				}
+			} else {
+				err = database.WithTx(ctx, w.DB, &sql.TxOptions{ReadOnly: true}, func(ctx context.Context, tx database.Tx) error {
+					rd, err := store.GetPart(ctx, tx, ids[hid])
+					if err != nil {
+						return err
+					}
+					return drain(rd)
+				})
+			}
+			if err != nil && errors.Is(err, partstore.ErrPartNotFound) {
+				op.notFound = true
+			} else {
+				op.err = err
+			}
+			ev++
+			op.ret = ev
+			rc.Logf("[%d,%d] c%d held GetPart(id%d) -> %d B %s err=%v notFound=%v", op.call, op.ret, base, hid, len(op.val), cachesClip(op.val), op.err, op.notFound)
+			if spawned && op.err == nil && !op.notFound {
+				rc.Stats.Inc("probe.c19.partstore.held_reader_drained")
+			}
+		})
+		if err := rc.S.Run(func() bool {
+			if !holder.Done() {
+				return false
+			}
+			for _, t := range stage {
+				if !t.Done() {
+					return false
+				}
+			}
+			return true
+		}); err != nil {
+			return nil, err
+		}
+		for _, t := range append([]*sim.Task{holder}, stage...) {
+			if p := TaskPanic(t); p != "" {
+				return rc.Fail("panic", "panic:"+l.CachePolicy, "cache part store (%s): %s", spec.Default, p), nil
+			}
+		}
+		re := rc.S.Go(fmt.Sprintf("r%d.reread", base), func(t *sim.Task) {
+			runOp(base, 1, plan{kind: "get", id: hid, readSizes: []int{4096}}, fRe)
+		})
+		if err := rc.S.RunTasks(re); err != nil {
+			return nil, err
+		}
+		if p := TaskPanic(re); p != "" {
+			return rc.Fail("panic", "panic:"+l.CachePolicy, "cache part store (%s): %s", spec.Default, p), nil
+		}
+		rc.Stats.Inc("c19.partstore.held_rounds")
+	}
 	// a final read of every id at quiescence (sees what the cache retained)
 	fin := rc.S.Go("final", func(t *sim.Task) {
 		for i := range ids {
@@ -1053,6 +1460,9 @@ type c20Cmp struct {
 	rec    *c20Recorder
 	cause  map[string]string
 	seen   map[string]bool
+	// abandon, when set, decides per compared GetObject whether the caller
+	// first gives up a read of the same key through the cache
+	abandon func() c20Abandon
 }
 
 func (c *c20Cmp) causeOf(id string, differs bool) string {
@@ -1163,6 +1573,26 @@ func (c *c20Cmp) compare(ctx context.Context, b, k string, getFirst bool, cond i
 		if ierr == nil {
 			ibody, irerr = c20ReadBody(irds)
 		}
+		// now and then the caller first gives up a read of this key through the
+		// cache (disconnects after 0..size-1 bytes, closes twice, or the body
+		// fails below the cache); whatever that leaves behind, the fresh read
+		// that follows must still equal the inner storage's answer
+		abandoned := ""
+		if c.abandon != nil && ierr == nil && irerr == nil {
+			if a := c.abandon(); a.on {
+				ao, abody, arerr, how := c20AbandonedRead(ctx, cached, bn(b), ok(k), a)
+				rc.Stats.Inc("c20.seq.abandoned_reads")
+				if how != "" {
+					abandoned = "GetObject-" + how
+					rc.Stats.Inc("probe.c20.seq.read_" + how)
+					rc.Logf("  GetObject %s/%s through the cache %s: %s after %d of %d bytes (%v)", b, k, a, how, len(abody), ao.Size, arerr)
+					if !bytes.HasPrefix(ibody, abody) {
+						rc.Stats.Inc("c20.divergence")
+						rc.SoftFail(rc.Fail("transparent", "partial-body-differs", "GetObject %s/%s through the cache (%s): the %d bytes delivered before the read ended %s are no prefix of the inner storage's body %s", b, k, a, len(abody), cachesClip(abody), cachesClip(ibody)))
+					}
+				}
+			}
+		}
 		co, crds, cerr := cached.GetObject(ctx, bn(b), ok(k), nil, nil)
 		var cbody []byte
 		var crerr error
@@ -1177,7 +1607,14 @@ func (c *c20Cmp) compare(ctx context.Context, b, k string, getFirst bool, cond i
 			rc.SoftFail(rc.Fail("transparent", "GetObject-body-read-error", "GetObject %s/%s: reading the body: inner %v, cached %v", b, k, irerr, crerr))
 			return
 		}
+		// a truncated body right after a read of this key was given up is
+		// attributed to that read, not to the last mutation
+		last := c.rec.last
+		if abandoned != "" && len(cbody) < len(ibody) && bytes.HasPrefix(ibody, cbody) {
+			c.rec.last = abandoned
+		}
 		cause := c.causeOf(b+"|"+k+"|GetObject|body", !bytes.Equal(ibody, cbody))
+		c.rec.last = last
 		if !bytes.Equal(ibody, cbody) {
 			rc.Stats.Inc("c20.divergence")
 			rc.SoftFail(rc.Fail("transparent", "body-differs:after-"+cause, "GetObject %s/%s: body differs: inner %d bytes %s, cached %d bytes %s (first appeared after %s through the cache)", b, k, len(ibody), cachesClip(ibody), len(cbody), cachesClip(cbody), cause))
@@ -1274,12 +1711,144 @@ func cachesPanicKey(t *sim.Task) string {
 	return "panic"
 }
 
+// c20FailKey marks a context (value: the c20Abandon): the body reader the
+// INNER storage returns for a GetObject made under that context fails with an
+// injected error once the drawn share of the body was delivered (a read error
+// below the cache).
+type c20FailKey struct{}
+
+var errC20Body = &seams.InjectedError{Site: "c20.inner.body.read"}
+
+// c20Inner sits between the object-cache middleware and the real storage.
+type c20Inner struct {
+	storage.Storage
+	failed int
+}
+
+func (s *c20Inner) GetObject(ctx context.Context, b storage.BucketName, k storage.ObjectKey, ranges []storage.ByteRange, opts *storage.GetObjectOptions) (*storage.Object, []io.ReadCloser, error) {
+	o, rds, err := s.Storage.GetObject(ctx, b, k, ranges, opts)
+	if a, armed := ctx.Value(c20FailKey{}).(c20Abandon); armed && err == nil && len(rds) > 0 {
+		rds[0] = &c20FailingBody{ReadCloser: rds[0], failAt: a.offset(o.Size), owner: s}
+	}
+	return o, rds, err
+}
+
+// (the middleware's delegator looks for this optional interface on its next storage)
+func (s *c20Inner) WithTransaction(ctx context.Context, opts *sql.TxOptions, fn func(ctx context.Context, txStorage storage.Storage) error) error {
+	return delegator.WithTransaction(ctx, opts, s.Storage, s, fn)
+}
+
+type c20FailingBody struct {
+	io.ReadCloser
+	failAt int64
+	off    int64
+	owner  *c20Inner
+}
+
+func (r *c20FailingBody) Read(p []byte) (int, error) {
+	if r.off >= r.failAt {
+		r.owner.failed++
+		return 0, errC20Body
+	}
+	if rem := r.failAt - r.off; int64(len(p)) > rem {
+		p = p[:rem]
+	}
+	n, err := r.ReadCloser.Read(p)
+	r.off += int64(n)
+	return n, err
+}
+
+// c20Abandon is how a GetObject through the cache is given up by its caller:
+// the body is read up to an offset below its size and the reader is closed
+// (a client that disconnected), closed twice, or the inner storage's body
+// fails at that offset. Drawn from the FAULT tape (zero = an ordinary complete
+// read), so the workload tape keeps its meaning.
+type c20Abandon struct {
+	on      bool
+	offSel  int  // 0: no byte, 1: one byte, 2: half, 3: all but the last byte
+	twice   bool // Close is called a second time
+	readErr bool // instead of stopping, the caller reads on and the inner body fails at the offset
+	retag   bool // (objcache-conc) re-tag the object through the cache first, which drops its cache entry
+}
+
+func c20DrawAbandon(ft *sim.Tape, den int) c20Abandon {
+	a := c20Abandon{on: ft.Chance(1, den)}
+	if !a.on {
+		return a
+	}
+	a.offSel = ft.Int(4)
+	a.twice = ft.Chance(1, 3)
+	a.readErr = ft.Chance(1, 4)
+	a.retag = ft.Chance(1, 2)
+	return a
+}
+
+func (a c20Abandon) offset(size int64) int64 {
+	if size <= 0 {
+		return 0
+	}
+	return []int64{0, min(1, size-1), size / 2, size - 1}[a.offSel]
+}
+
+func (a c20Abandon) String() string {
+	how := "closed"
+	if a.twice {
+		how = "closed twice"
+	}
+	if a.readErr {
+		return "inner body read error, then " + how
+	}
+	return "partly read, then " + how
+}
+
+// c20AbandonedRead performs such a read of b/k through st. It returns the
+// bytes that were delivered, the object returned, and how the read ended
+// ("" when GetObject itself failed).
+func c20AbandonedRead(ctx context.Context, st storage.Storage, b storage.BucketName, k storage.ObjectKey, a c20Abandon) (*storage.Object, []byte, error, string) {
+	gctx := ctx
+	if a.readErr {
+		gctx = context.WithValue(ctx, c20FailKey{}, a)
+	}
+	o, rds, err := st.GetObject(gctx, b, k, nil, nil)
+	if err != nil {
+		return nil, nil, err, ""
+	}
+	var got []byte
+	var rerr error
+	if len(rds) > 0 {
+		limit := a.offset(o.Size)
+		if a.readErr {
+			limit = 1 << 40 // read on until the body ends or fails
+		}
+		for int64(len(got)) < limit && rerr == nil {
+			buf := make([]byte, min(512, limit-int64(len(got))))
+			n, e := rds[0].Read(buf)
+			got = append(got, buf[:n]...)
+			rerr = e
+		}
+	}
+	for _, r := range rds {
+		_ = r.Close()
+		if a.twice {
+			_ = r.Close()
+		}
+	}
+	how := "abandoned"
+	switch {
+	case rerr == io.EOF:
+		how, rerr = "complete", nil // (a cache hit under readErr: nothing below the cache was read)
+	case rerr != nil:
+		how = "read-error"
+	}
+	return o, got, rerr, how
+}
+
 func c20Wrap(w *world.World, c c20CacheCfg) (storage.Storage, error) {
 	gc, err := cachesBuild(filepath.Join(w.Dir, "objectcache"), c.pers, c.policy, c.limit, nil)
 	if err != nil {
 		return nil, err
 	}
-	return objectcache.NewStorageMiddleware(w.Storage, gc, objectcache.Options{MaxObjectSizeBytes: c.maxObj, CacheReadErrorsAsMiss: c.errAsMiss})
+	return objectcache.NewStorageMiddleware(&c20Inner{Storage: w.Storage}, gc, objectcache.Options{MaxObjectSizeBytes: c.maxObj, CacheReadErrorsAsMiss: c.errAsMiss})
 }
 
 func runC20Seq(rc *RunCtx) (*Violation, error) {
@@ -1320,6 +1889,7 @@ func runC20Seq(rc *RunCtx) (*Violation, error) {
 	d.Think = func() time.Duration { return time.Duration(1+g.Int(3000)) * time.Microsecond }
 	compared := 0
 	cmp := &c20Cmp{rc: rc, inner: w.Storage, cached: rec, rec: rec, cause: map[string]string{}, seen: map[string]bool{}}
+	cmp.abandon = func() c20Abandon { return c20DrawAbandon(rc.Tapes.Fault, 4) }
 	d.AfterOp = func(d *Driver) *Violation {
 		getFirst := g.Chance(1, 2)
 		cond := 0
@@ -1393,6 +1963,7 @@ func runC20Conc(rc *RunCtx) (*Violation, error) {
 	var ev int64
 	var puts []*c20Put
 	nReads := 0
+	var abandonedLens []int // bytes delivered by the reads that were given up so far
 	check := func(who, op string, o *storage.Object, body []byte, haveBody bool, call int64) {
 		nReads++
 		sfx := cc.pers
@@ -1415,6 +1986,16 @@ func runC20Conc(rc *RunCtx) (*Violation, error) {
 		}
 		if int64(len(body)) != o.Size {
 			rc.Stats.Inc("c20.conc.size_mismatch")
+			// the body ends where a reader that was given up earlier stopped: named separately
+			if len(body) < len(src.body) && bytes.HasPrefix(src.body, body) {
+				for _, al := range abandonedLens {
+					if al == len(body) {
+						rc.Stats.Inc("c20.conc.truncated_like_abandoned_read")
+						rc.SoftFail(rc.Fail("conc-version", "body-truncated-where-an-abandoned-read-stopped:"+sfx, "%s GetObject [%d,..] returned Size %d ETag %s (version %s) but the body ends cleanly after %d bytes %s - exactly the bytes an earlier GetObject had consumed when its caller closed the reader", who, call, o.Size, o.ETag, src.tag, len(body), cachesClip(body)))
+						return
+					}
+				}
+			}
 			rc.SoftFail(rc.Fail("conc-version", "body-size-differs-from-returned-size:"+sfx, "%s GetObject [%d,..] returned Size %d ETag %s (version %s) but the body has %d bytes %s (clean EOF)", who, call, o.Size, o.ETag, src.tag, len(body), cachesClip(body)))
 			return
 		}
@@ -1428,6 +2009,16 @@ func runC20Conc(rc *RunCtx) (*Violation, error) {
 			}
 			rc.SoftFail(rc.Fail("conc-version", "body-does-not-hash-to-returned-etag:"+sfx, "%s GetObject [%d,..] returned the metadata of version %s (ETag %s) with a body that hashes to %s: %s", who, call, src.tag, o.ETag, checksumsOf(body).etag, other))
 		}
+	}
+	// the bytes a given-up read delivered are the beginning of the version whose metadata came with them
+	checkPrefix := func(who string, o *storage.Object, got []byte, call int64) {
+		nReads++
+		for _, p := range puts {
+			if p.etag == o.ETag && int64(len(p.body)) == o.Size && p.err == nil && bytes.HasPrefix(p.body, got) {
+				return
+			}
+		}
+		rc.SoftFail(rc.Fail("conc-version", "partial-body-not-of-returned-version:"+cc.pers, "%s GetObject [%d,..] returned ETag %s size %d and, before the caller gave the read up, %d bytes %s that are not the beginning of a version with that ETag", who, call, o.ETag, o.Size, len(got), cachesClip(got)))
 	}
 	var herr error
 	setup := rc.S.Go("setup", func(t *sim.Task) {
@@ -1473,10 +2064,11 @@ func runC20Conc(rc *RunCtx) (*Violation, error) {
 		bodySizes []int
 		readSizes []int
 		think     time.Duration
+		abandon   c20Abandon
 	}
 	var tasks []*sim.Task
+	allPlans := make([][]plan, n)
 	for c0 := 0; c0 < n; c0++ {
-		ci := c0
 		nops := 2 + g.Int(4)
 		var plans []plan
 		for i := 0; i < nops; i++ {
@@ -1487,12 +2079,52 @@ func runC20Conc(rc *RunCtx) (*Violation, error) {
 			p.think = time.Duration(g.Int(1500)) * time.Microsecond
 			plans = append(plans, p)
 		}
+		allPlans[c0] = plans
+	}
+	// which GetObject calls are given up by their caller (after 0..size-1
+	// bytes, closed once or twice, or failing below the cache; half of them
+	// after re-tagging the object through the cache, which drops its entry so
+	// that the read is a cache fill): drawn from the FAULT tape, the workload
+	// tape above keeps its meaning
+	for ci := range allPlans {
+		for i := range allPlans[ci] {
+			if allPlans[ci][i].kind == "get" {
+				allPlans[ci][i].abandon = c20DrawAbandon(rc.Tapes.Fault, 3)
+			}
+		}
+	}
+	for c0 := 0; c0 < n; c0++ {
+		ci := c0
+		plans := allPlans[ci]
 		tasks = append(tasks, rc.S.Go(fmt.Sprintf("c%d", ci), func(t *sim.Task) {
 			who := fmt.Sprintf("c%d", ci)
 			for i, p := range plans {
 				rc.S.Sleep(p.think)
 				ev++
 				call := ev
+				if p.kind == "get" && p.abandon.on {
+					a := p.abandon
+					if a.retag {
+						terr := cached.PutObjectTagging(ctx, b, k, map[string]string{"round": fmt.Sprintf("%d.%d", ci, i)}, nil)
+						rc.Logf("[%d,..] %s PutObjectTagging -> %v", call, who, terr)
+					}
+					o, got, rerr, how := c20AbandonedRead(ctx, cached, b, k, a)
+					ev++
+					rc.Stats.Inc("c20.conc.abandoned_reads")
+					if how == "" {
+						rc.Logf("[%d,%d] %s GetObject -> %v", call, ev, who, rerr)
+						continue
+					}
+					rc.Stats.Inc("probe.c20.conc.read_" + how)
+					rc.Logf("[%d,%d] %s GetObject (%s) -> etag %s size %d, %s after %d B (%v)", call, ev, who, a, o.ETag, o.Size, how, len(got), rerr)
+					if how == "complete" {
+						check(who, "GetObject", o, got, true, call)
+						continue
+					}
+					abandonedLens = append(abandonedLens, len(got))
+					checkPrefix(who, o, got, call)
+					continue
+				}
 				switch p.kind {
 				case "put":
 					pt := &c20Put{tag: fmt.Sprintf("c%d.%d", ci, i), call: call}
@@ -1937,27 +2569,29 @@ func init() {
 	realCache := []string{"internal/cache (GenericCache)", "internal/cache/persistor/inmemory", "internal/cache/persistor/filesystem", "internal/cache/evictionpolicy/lfu (+fixedkeylimit, fixedsizelimit)", "internal/cache/evictionpolicy/evictnothing"}
 	Register(&Scenario{
 		Prop: "C19", Name: "generic-cache", Policy: cachesPolicy,
-		Rule: "2-5 tasks run 2-6 Get/Set/Remove calls each on 2-4 keys of a real GenericCache (in-memory or filesystem persistor; evict-nothing, LFU with a 1-2 key limit or a 10-1500 byte size limit); every Set writes a value unique to it through a chunked stream (size known or -1, one in ten streams fails midway); the scheduler preempts before every read the persistor makes from that stream inside Store (GenericCache.mu not held) and between the reads of a Get's result, never inside persistor Get/Remove (mutex held); oracle: a Get that ends with a clean EOF returned the complete bytes of a Set of that key whose stream was fully consumed, no panic; the 'free of data races' clause is NOT decided (a serialising scheduler cannot observe memory races); non-trivial = at least 4 calls with a Set and a Get",
+		Rule: "2-5 tasks run 2-6 Get/Set/Remove calls each on 2-4 keys of a real GenericCache (in-memory or filesystem persistor; evict-nothing, LFU with a 1-2 key limit or a 10-1500 byte size limit); every Set writes a value unique to it through a chunked stream (size known or -1, one in ten streams fails midway); the scheduler preempts before every read the persistor makes from that stream inside Store (GenericCache.mu not held) and between the reads of a Get's result, never inside persistor Get/Remove (mutex held); oracle: a Get that ends with a clean EOF returned the complete bytes of a Set of that key whose stream was fully consumed and which had begun before the Get returned its reader, no panic; afterwards 0-3 held-reader rounds (drawn after everything else): at quiescence a value A (62-2.1 kB) is Set, 1-2 readers are obtained with Get and read up to offset 0 / 1 / half / len-1, and while they stay open 1-2 tasks run 1-3 Set (same size as A, half, one byte smaller, larger, failing midway; chunked streams, size known or -1) and Remove calls on the SAME key, interleaved with the readers being drained in chunks of 5-4096 B with a preemption point before every chunk and a 0-150 us delay before the first; oracle: a held reader that ends with a clean EOF delivered exactly A (the value current when Get returned) - an error is accepted, a mixture, a prefix, or the value of a later or earlier Set is not (keys held-reader-mixed/partial/later-set/stale-set); the 'free of data races' clause is NOT decided (a serialising scheduler cannot observe memory races); non-trivial = at least 4 calls with a Set and a Get",
 		Real: realCache,
 		Stub: []string{"persistor wrapper that yields inside Store (pass-through otherwise)"},
 		Run:  runC19Generic,
 	})
 	Register(&Scenario{
 		Prop: "C19", Name: "cache-partstore", Policy: cachesPolicy,
-		Rule: "2-4 tasks run 2-6 (with tx-free calls enabled: up to 9, the extras on one hot id, followed by 0-3 rounds of put / delete racing a read / re-read on that id) PutPart/GetPart/DeletePart calls each (in its own transaction on the real SQLite database, or transaction-free) on 1-3 part ids of the real cache part store (GenericCache: in-memory/filesystem persistor, evict-nothing/LFU with tiny limits, max cached part size default/100/1000 B) over a real filesystem or SQL part store; 2 in 3 ids exist below the cache before the clients start (first reads are cache fills); per run either every put writes a value of its own (rewritten-ids) or every put of an id writes the same bytes (write-once-ids, as pithos uses part ids); put bodies and read results are streamed in small chunks with a preemption point at every chunk, at every part-store call, BeginTx and commit-phase hook; on bottoms advertising the tx-free capabilities (filesystem) a tape-chosen share (0, 1/3, 2/3, all) of the calls runs with tx == nil directly on the cache part store, with the yields of the seam below the cache between the inner-store call and the cache update; oracle per GetPart with a clean EOF: the bytes are the complete value of a put on that id, and for at least one such put no DeletePart (or PutPart of other bytes) on that id completed after that put returned and before this read began (keys carry :txfree when a tx == nil call is involved and :no-read-in-flight when no GetPart of that id overlapped the return of that delete/overwrite); ErrPartNotFound is always accepted; a final quiescent read of every id is checked the same way; no faults; non-trivial = at least 2 reads and a put",
+		Rule: "2-4 tasks run 2-6 (with tx-free calls enabled: up to 9, the extras on one hot id, followed by 0-3 rounds of put / delete racing a read / re-read on that id) PutPart/GetPart/DeletePart calls each (in its own transaction on the real SQLite database, or transaction-free) on 1-3 part ids of the real cache part store (GenericCache: in-memory/filesystem persistor, evict-nothing/LFU with tiny limits, max cached part size default/100/1000 B) over a real filesystem or SQL part store; 2 in 3 ids exist below the cache before the clients start (first reads are cache fills); per run either every put writes a value of its own (rewritten-ids) or every put of an id writes the same bytes (write-once-ids, as pithos uses part ids); put bodies and read results are streamed in small chunks with a preemption point at every chunk, at every part-store call, BeginTx and commit-phase hook; on bottoms advertising the tx-free capabilities (filesystem) a tape-chosen share (0, 1/3, 2/3, all) of the calls runs with tx == nil directly on the cache part store, with the yields of the seam below the cache between the inner-store call and the cache update; oracle per GetPart with a clean EOF: the bytes are the complete value of a put on that id, and for at least one such put no DeletePart (or PutPart of other bytes) on that id completed after that put returned and before this read began (keys carry :txfree when a tx == nil call is involved and :no-read-in-flight when no GetPart of that id overlapped the return of that delete/overwrite); ErrPartNotFound is always accepted; before the final reads 0-2 held-reader rounds (drawn after everything else): a put A (56-3 kB) on a drawn id, then a reader is obtained with GetPart (in a read transaction or tx-free) and read up to offset 0 / 1 / half / len-1, and only then 1-2 tasks start that run 1-3 PutPart (same size as A, half, one byte smaller, larger) and DeletePart calls on the SAME id while the reader is drained in chunks of 7-4096 B with a preemption point before every chunk, followed by a re-read; the held read and these calls are part of the checked history (a held reader delivers the complete bytes of ONE put of that id or fails, never a mixture); a final quiescent read of every id is checked the same way; no faults; non-trivial = at least 2 reads and a put",
 		Real: append([]string{"internal/storage/metadatapart/partstore/cache", "internal/storage/metadatapart/partstore/filesystem", "internal/storage/metadatapart/partstore/sql", "internal/storage/database (sqlite, tx hooks)"}, realCache...),
 		Run:  runC19PartStore,
 	})
 	Register(&Scenario{
 		Prop: "C20", Name: "objcache-seq", Weight: 2,
-		Rule: "a generated sequential history (buckets, versioning changes, puts with metadata/tags/classes/conditions, copies, appends, deletes and version deletes incl. delete markers, multi-deletes, multipart create/upload/complete/abort, tagging changes, storage-class transitions with and without a class-mapped second part store) is executed through the real object-cache middleware (GenericCache with in-memory/filesystem persistor, evict-nothing/LFU, max object size default/100/3000 B) over the real metadatapart storage; the driver's own read-backs warm the cache; after EVERY operation each of the 2 buckets x 2-3 keys is read with HeadObject and GetObject (order and If-Match/If-None-Match options drawn per op) from the inner storage directly and through the cache, and outcome class, every metadata field and the body are compared; non-trivial = at least one acknowledged mutation",
+		Rule: "a generated sequential history (buckets, versioning changes, puts with metadata/tags/classes/conditions, copies, appends, deletes and version deletes incl. delete markers, multi-deletes, multipart create/upload/complete/abort, tagging changes, storage-class transitions with and without a class-mapped second part store) is executed through the real object-cache middleware (GenericCache with in-memory/filesystem persistor, evict-nothing/LFU, max object size default/100/3000 B) over the real metadatapart storage; the driver's own read-backs warm the cache; after EVERY operation each of the 2 buckets x 2-3 keys is read with HeadObject and GetObject (order and If-Match/If-None-Match options drawn per op) from the inner storage directly and through the cache, and outcome class, every metadata field and the body are compared; before 1 in 4 of these compared GetObject calls (drawn from the fault tape) the caller first gives up a GetObject of the same key through the cache - reads 0 / 1 / half / size-1 bytes and closes the reader (1 in 3: closes it twice), or (1 in 4) reads on while the inner storage's body reader fails with an injected error at that offset - the bytes delivered must be a prefix of the inner body, and the fresh complete read that follows must equal the inner storage's answer like every other (a truncated body is keyed body-differs:after-GetObject-abandoned / -read-error); non-trivial = at least one acknowledged mutation",
 		Real: append([]string{"internal/storage/middlewares/objectcache", "internal/storage/middlewares/delegator", "internal/cache (GenericCache, persistors, LFU)"}, realStack...),
+		Stub: []string{"pass-through storage wrapper between the middleware and the real storage (fails the body reader of a marked GetObject at a drawn offset)"},
 		Run:  runC20Seq,
 	})
 	Register(&Scenario{
 		Prop: "C20", Name: "objcache-conc", Policy: concPolicy,
-		Rule: "2-4 client tasks issue 2-5 PutObject (unique bodies of 14 B-3.5 kB streamed in chunks), GetObject (body read in chunks) and HeadObject calls each on ONE key through the real object-cache middleware over the real metadatapart storage (optionally versioned bucket, optionally a warm cache); preemptions at body chunks, BeginTx, part-store calls and commit-phase hooks; oracle: every (ETag,size) returned is that of a version some PutObject wrote, and every body that ends with a clean EOF has the returned size and hashes (MD5) to the returned ETag; two quiescent reads at the end are checked the same way; non-trivial = at least 2 puts and 2 reads",
+		Rule: "2-4 client tasks issue 2-5 PutObject (unique bodies of 14 B-3.5 kB streamed in chunks), GetObject (body read in chunks) and HeadObject calls each on ONE key through the real object-cache middleware over the real metadatapart storage (optionally versioned bucket, optionally a warm cache); preemptions at body chunks, BeginTx, part-store calls and commit-phase hooks; oracle: every (ETag,size) returned is that of a version some PutObject wrote, and every body that ends with a clean EOF has the returned size and hashes (MD5) to the returned ETag; 1 in 3 GetObject calls (drawn from the fault tape) are given up by their caller: after 0 / 1 / half / size-1 bytes the reader is closed (1 in 3: twice) or (1 in 4) the inner storage's body fails with an injected error at that offset, half of them right after a PutObjectTagging through the cache (which drops the key's cache entry, so that the read is a cache fill); the bytes such a read delivered must be the beginning of a version with the returned ETag, and all later reads are checked as above (a body that ends where a given-up read stopped is keyed body-truncated-where-an-abandoned-read-stopped); two quiescent reads at the end are checked the same way; non-trivial = at least 2 puts and 2 reads",
 		Real: append([]string{"internal/storage/middlewares/objectcache", "internal/cache (GenericCache, persistors, LFU)"}, realStack...),
+		Stub: []string{"pass-through storage wrapper between the middleware and the real storage (fails the body reader of a marked GetObject at a drawn offset)"},
 		Run:  runC20Conc,
 	})
 	Register(&Scenario{
